@@ -30,12 +30,13 @@ func runC08(p *Prog, r *Report) {
 				cl = append(cl, e)
 			}
 		}
+		srcID := "" // the local the pipe ids are compared with: the source id
 		skip := func(s Sel) bool {
 			for _, e := range s {
 				ok := false
 				for _, g := range e.Guard {
-					if strings.HasSuffix(g, ".p.ID() != φid") {
-						ok = true
+					if i := strings.LastIndex(g, ".p.ID() != "); i >= 0 && localTok.FindString(g[i+11:]) == g[i+11:] && (srcID == "" || srcID == g[i+11:]) {
+						ok, srcID = true, g[i+11:]
 					}
 				}
 				if !ok {
@@ -44,9 +45,9 @@ func runC08(p *Prog, r *Report) {
 			}
 			return len(s) == 1
 		}
-		r.Check(skip(snd) && skip(cl) && snd[0].Args[0] == "φm" && len(snd[0].Args) == 2 && snd[0].Args[1] == "nonblocking", R, "never-back-to-source", snd.Pos(p), "a copy is queued only for pipes whose id differs from the source id", "a forwarded message can be sent back on the pipe it came from (the send is not guarded by p.p.ID() != id): "+guardsOf(snd))
+		r.Check(skip(snd) && skip(cl) && litEq(snd[0].Args[0], "φm") && len(snd[0].Args) == 2 && snd[0].Args[1] == "nonblocking", R, "never-back-to-source", snd.Pos(p), "a copy is queued only for pipes whose id differs from the source id", "a forwarded message can be sent back on the pipe it came from (the send is not guarded by p.p.ID() != id): "+guardsOf(snd))
 		if len(snd) == 1 {
-			fanoutNoBypass(p, r, R, "xbus.SendMsg", snd[0], func(a string) bool { return strings.HasSuffix(a, ".p.ID() == φid") }, " (skipped only for the source pipe)")
+			fanoutNoBypass(p, r, R, "xbus.SendMsg", snd[0], func(a string) bool { return srcID != "" && strings.HasSuffix(a, ".p.ID() == "+srcID) }, " (skipped only for the source pipe)")
 		}
 		if body != nil && len(snd) == 1 {
 			r.Check(inBody(body, snd[0]), R, "send-inside-loop", snd.Pos(p), "inside the loop over all pipes", "the send is outside the loop over the pipes")
@@ -54,7 +55,7 @@ func runC08(p *Prog, r *Report) {
 		// id := 0 unless len(Header)==4 then Uint32(Header)
 		var idphi *ssa.Phi
 		EachInstr(bs.fn, func(in ssa.Instruction) {
-			if ph, ok := in.(*ssa.Phi); ok && ph.Comment == "id" {
+			if ph, ok := in.(*ssa.Phi); ok && srcID != "" && Desc(ph) == srcID {
 				idphi = ph
 			}
 		})
